@@ -233,7 +233,7 @@ class EngineD:
         if lapse_first:
             w.clock.advance(w.knobs.lock_duration_s + 2.0)
         for _ in range(sweeps):
-            w.processor.run_recovery()
+            w.run_sweep()
 
 
 def _iso_us(s: str) -> int:
